@@ -206,7 +206,8 @@ def _strategy():
     return lifecycle_cases(hooks=True, exec_fail=True, children=2,
                            max_watchers=3, kill_cmd=True, signal_cmd=True,
                            respawn_false=True, rm=True, set_other=True,
-                           config=True, job_control=True, ondemand=True)
+                           config=True, job_control=True, ondemand=True,
+                           capture=True)
 
 
 HOOKSETS = {
